@@ -1,10 +1,471 @@
 /-
-  MdModel.BitFlip — placeholder (model not written yet).
+  MdModel.BitFlip — model of the bit-flip analysis of `minidump-processor`:
+    * `MinidumpInfo::check_for_bitflips`                    (processor.rs:718-784)
+    * `bitflip::{BitRange, try_bit_flips}`                  (processor.rs:1467-1537)
+    * `memory_operation::MemoryOperation::{from_crash_reason, is_possibly_allowed_for}`
+                                                            (processor.rs:1431-1451)
+    * `PossibleBitFlip::{new, calculate_heuristics}`, `BitFlipDetails::confidence`,
+      `confidence::combine` and the confidence constants    (process_state.rs:276-426)
+    * `UnifiedMemoryInfoList::memory_info_at_address` over either a `MinidumpMemoryInfoList`
+      or a `MinidumpLinuxMaps` (minidump.rs:2440-2760): the range table is the C08 model
+      (`MdModel.RangeMap.safe` / `get`), permissions are `is_readable/is_writable/is_executable`
+      of the two region kinds.
+    * `Cpu::pointer_width` (system_info.rs:132), `MinidumpContext::{get_register,
+      valid_registers, register_size}` as far as this analysis uses them.
+
+  Addresses are `Nat` (`< 2^64` is a theorem about every produced value, see
+  `MdProofs.C19.flip_lt`); `address ^ (1 << i)` is `a ^^^ (1 <<< i)` on `Nat` (in Rust `1 << i`
+  is a `u64` shift by `i < 64`, which neither overflows nor panics).
+  The f32 confidence is modelled over exact rationals `Q` (numerator `Int`, denominator `Nat`).
+
+  NOT modelled (inputs of the model, observed on the implementation): the disassembler and
+  `op_analysis` (they produce `adjusted_address` and the set of instruction registers), and the
+  crash-reason decision tree (C14) — the model receives the part of `CrashReason` that
+  `from_crash_reason` inspects.
 -/
 import MdModel.Prelude
+import MdModel.RangeMap
 namespace MdModel.BitFlip
+open MdModel
+
+/-! ## platform -/
+
+/-- `system_info::Cpu` -/
+inductive Cpu where
+  | x86 | amd64 | ppc | ppc64 | sparc | arm | arm64 | mips | mips64 | unknown
+  deriving DecidableEq, Repr
+
+inductive PtrWidth where
+  | b32 | b64 | unknown
+  deriving DecidableEq, Repr
+
+/-- `Cpu::pointer_width` (system_info.rs:132-138). -/
+def Cpu.pointerWidth : Cpu → PtrWidth
+  | .x86 | .ppc | .sparc | .arm | .mips => .b32
+  | .amd64 | .ppc64 | .arm64 | .mips64 => .b64
+  | .unknown => .unknown
+
+/-! ## memory operation and permissions -/
+
+/-- `memory_operation::MemoryOperation` -/
+inductive MemOp where
+  | undetermined | read | write | execute
+  deriving DecidableEq, Repr
+
+/-- The part of `CrashReason` that `MemoryOperation::from_crash_reason` distinguishes. -/
+inductive Reason where
+  | winAvRead | winAvWrite | winAvExec | other
+  deriving DecidableEq, Repr
+
+/-- `MemoryOperation::from_crash_reason` (processor.rs:1431-1440). -/
+def MemOp.fromReason : Reason → MemOp
+  | .winAvRead => .read
+  | .winAvWrite => .write
+  | .winAvExec => .execute
+  | .other => .undetermined
+
+/-- what `is_readable / is_writable / is_executable` of a region answer -/
+structure Perm where
+  r : Bool
+  w : Bool
+  x : Bool
+  deriving DecidableEq, Repr, Inhabited
+
+/-- `MemoryOperation::is_possibly_allowed_for` (processor.rs:1444-1451). -/
+def MemOp.possiblyAllowed : MemOp → Perm → Bool
+  | .undetermined, _ => true
+  | .read, p => p.r
+  | .write, p => p.w
+  | .execute, p => p.x
+
+/-- `MemoryProtection` bits (minidump-common format.rs) used by `MinidumpMemoryInfo::is_*`:
+    PAGE_NOACCESS 1, READONLY 2, READWRITE 4, WRITECOPY 8, EXECUTE 0x10, EXECUTE_READ 0x20,
+    EXECUTE_READWRITE 0x40, EXECUTE_WRITECOPY 0x80. `intersects(mask)` = `bits & mask ≠ 0`. -/
+def protPerm (prot : Nat) : Perm :=
+  { r := prot &&& (0x02 ||| 0x04 ||| 0x20 ||| 0x40) != 0
+    w := prot &&& (0x04 ||| 0x08 ||| 0x40 ||| 0x80) != 0
+    x := prot &&& (0x10 ||| 0x20 ||| 0x40 ||| 0x80) != 0 }
+
+/-! ## the memory map (`UnifiedMemoryInfoList`) -/
+
+inductive MapKind where
+  /-- `MinidumpMemoryInfoList`: `(base_address, region_size)`, range by `mkRange` -/
+  | info
+  /-- `MinidumpLinuxMaps`: `(address.0, address.1)` inclusive, range by `mkRangeMap` -/
+  | maps
+  deriving DecidableEq, Repr
+
+structure Region where
+  lo : Nat
+  /-- `region_size` for `info`, final (inclusive) address for `maps` -/
+  b : Nat
+  perm : Perm
+  deriving Repr, Inhabited
+
+def Region.range (k : MapKind) (r : Region) : Option RangeMap.Rng :=
+  match k with
+  | .info => RangeMap.mkRange r.lo r.b
+  | .maps => RangeMap.mkRangeMap r.lo r.b
+
+/-- the entries handed to `into_rangemap_safe`: `(region.memory_range(), index)` -/
+def tableInput (k : MapKind) (rs : List Region) : List (Option RangeMap.Rng × RangeMap.Val) :=
+  rs.zipIdx.map fun (r, i) => (r.range k, i)
+
+/-- `from_regions`: `regions_by_addr` (`Outcome.panic` iff the final `unwrap` would fire —
+    C08 proves it never does). -/
+def buildTable (k : MapKind) (rs : List Region) : Outcome (List RangeMap.Entry) :=
+  RangeMap.safe (tableInput k rs)
+
+/-- `memory_info_at_address(a)` followed by the three permission queries:
+    `regions_by_addr.get(a).map(|&index| &self.regions[index])`. -/
+def lookupIn (rs : List Region) (table : List RangeMap.Entry) (a : Nat) : Option Perm :=
+  match RangeMap.get table a with
+  | none => none
+  | some i => (rs[i]?).map (·.perm)
+
+/-! ## bit ranges -/
+
+/-- `bitflip::BitRange` -/
+inductive BitRange where
+  | amd64Canonical | amd64NonCanonical | all
+  deriving DecidableEq, Repr
+
+/-- `BitRange::range()` start -/
+def BitRange.lo : BitRange → Nat
+  | .all => 0
+  | .amd64Canonical => 0
+  | .amd64NonCanonical => 48
+
+/-- `BitRange::range()` end (exclusive) -/
+def BitRange.hi : BitRange → Nat
+  | .all => 64
+  | .amd64Canonical => 48
+  | .amd64NonCanonical => 64
+
+/-- the bit positions the `for i in bit_range.range()` loop visits, in order -/
+def BitRange.bits (R : BitRange) : List Nat := List.range' R.lo (R.hi - R.lo)
+
+/-! ## heuristics and confidence -/
+
+/-- `BitFlipDetails` -/
+structure Details where
+  wasNonCanonical : Bool
+  isNull : Bool
+  wasLow : Bool
+  nearby : Nat
+  poison : Bool
+  deriving DecidableEq, Repr, Inhabited
+
+/-- exact rational `num / den` -/
+structure Q where
+  num : Int
+  den : Nat
+  deriving DecidableEq, Repr
+
+namespace Q
+def one : Q := ⟨1, 1⟩
+def mul (a b : Q) : Q := ⟨a.num * b.num, a.den * b.den⟩
+/-- `1 - a` -/
+def oneMinus (a : Q) : Q := ⟨(a.den : Int) - a.num, a.den⟩
+/-- `0 ≤ a ≤ 1` with a positive denominator -/
+def Unit (a : Q) : Prop := 0 < a.den ∧ 0 ≤ a.num ∧ a.num ≤ (a.den : Int)
+end Q
+
+/-! `mod confidence` constants (process_state.rs:286-305): HIGH 0.90, MEDIUM 0.50, LOW 0.25 -/
+def cHIGH : Q := ⟨90, 100⟩
+def cMEDIUM : Q := ⟨50, 100⟩
+def cLOW : Q := ⟨25, 100⟩
+def cBASELINE : Q := cLOW
+def cNON_CANONICAL : Q := cHIGH
+def cNULL : Q := cMEDIUM
+/-- `[MEDIUM, MEDIUM + 0.05, MEDIUM + 0.1, MEDIUM + 0.15]` -/
+def cNEARBY : List Q := [⟨50, 100⟩, ⟨55, 100⟩, ⟨60, 100⟩, ⟨65, 100⟩]
+def cPOISON : Q := cMEDIUM
+def cORIGINAL_LOW : Q := cMEDIUM
+
+/-- `confidence::combine`: `1 - Π (1 - v)` -/
+def combine (vs : List Q) : Q :=
+  Q.oneMinus (vs.foldl (fun acc v => Q.mul acc (Q.oneMinus v)) Q.one)
+
+/-- the `values` vector of `BitFlipDetails::confidence` -/
+def confValues (d : Details) : List Q :=
+  [cBASELINE]
+  ++ (if d.wasNonCanonical then [cNON_CANONICAL] else [])
+  ++ (if d.isNull then [if d.wasLow then Q.mul cNULL cORIGINAL_LOW else cNULL] else [])
+  ++ (if d.nearby > 0 then
+        -- `NEARBY_REGISTER[min(nearby, 4) - 1]`: `nearby > 0`, so neither the subtraction nor
+        -- the index can go out of range (`confidence_index_in_range`)
+        [cNEARBY.getD (min d.nearby cNEARBY.length - 1) cMEDIUM]
+      else [])
+
+/-- `BitFlipDetails::confidence` over ℚ. -/
+def confidence (d : Details) : Q :=
+  let ret := combine (confValues d)
+  if d.poison then Q.mul ret cPOISON else ret
+
+/-- the exception context as far as the analysis reads it -/
+structure Ctx where
+  /-- `register_size()` in bytes -/
+  regSize : Nat
+  /-- `valid_registers()` in iteration order -/
+  regs : List (String × Nat)
+  deriving Repr
+
+/-- `context.get_register(name)`: the value iff the register is valid -/
+def Ctx.get (c : Ctx) (name : String) : Option Nat :=
+  (c.regs.find? fun p => p.1 == name).map (·.2)
+
+/-- `NEARBY_REGISTER_DISTANCE = 1 << 12` -/
+def NEARBY_DISTANCE : Nat := 4096
+/-- `LOW_ADDRESS_CUTOFF = NEARBY_REGISTER_DISTANCE * 2` -/
+def LOW_CUTOFF : Nat := 8192
+
+/-- the `is_repeated` closure selected by the register size (`(addr & 0xff) * 0x0101…`;
+    `0xff * 0x0101010101010101 = 2^64 - 1`, so the `u64` multiplication cannot overflow). -/
+def isRepeated (regSize : Nat) (v : Nat) : Bool :=
+  match regSize with
+  | 2 => v == (v % 256) * 0x0101
+  | 4 => v == (v % 256) * 0x01010101
+  | 8 => v == (v % 256) * 0x0101010101010101
+  | _ => false
+
+/-- the poison byte patterns (process_state.rs:414-415) -/
+def poisonBytes : List Nat :=
+  [0x2b, 0x2d, 0x2f, 0x49, 0x4b, 0x4d, 0x4f, 0x6b, 0x8b, 0x9b, 0x9f, 0xa5, 0xbb, 0xcc, 0xcd,
+   0xce, 0xdb, 0xe5]
+
+/-- `u64::abs_diff` -/
+def absDiff (a b : Nat) : Nat := if a ≥ b then a - b else b - a
+
+/-- `PossibleBitFlip::calculate_heuristics` (details only; the confidence is `confidence`). -/
+def calcHeuristics (addr orig : Nat) (wasNC : Bool) (ctx : Option Ctx) : Details :=
+  let isNull := addr == 0
+  let wasLow := isNull && decide (orig ≤ LOW_CUTOFF)
+  match ctx with
+  | none => { wasNonCanonical := wasNC, isNull, wasLow, nearby := 0, poison := false }
+  | some c =>
+    let should := decide (addr > LOW_CUTOFF)
+    let nearby := (c.regs.filter fun p => should && decide (absDiff addr p.2 ≤ NEARBY_DISTANCE)).length
+    let poison := c.regs.any fun p => isRepeated c.regSize p.2 && poisonBytes.contains (p.2 % 256)
+    { wasNonCanonical := wasNC, isNull, wasLow, nearby, poison }
+
+/-- `PossibleBitFlip` (the `confidence` field is `confidence details`) -/
+structure Flip where
+  addr : Nat
+  src : Option String
+  details : Details
+  deriving DecidableEq, Repr
+
+/-! ## `try_bit_flips` -/
+
+/-- "the address maps to valid memory": a region is found and possibly permits the operation -/
+def accessible (look : Nat → Option Perm) (op : MemOp) (a : Nat) : Bool :=
+  match look a with
+  | some m => op.possiblyAllowed m
+  | none => false
+
+/-- `create_possible_address` -/
+def mkFlip (a : Nat) (src : Option String) (R : BitRange) (ctx : Option Ctx) (p : Nat) : Flip :=
+  { addr := p, src, details := calcHeuristics p a (R == .amd64NonCanonical) ctx }
+
+/-- one iteration of the loop body for bit `i` (note: a NULL candidate that is also mapped and
+    permitted is pushed twice, exactly like the code) -/
+def candidatesAt (a : Nat) (src : Option String) (R : BitRange) (ctx : Option Ctx)
+    (look : Nat → Option Perm) (op : MemOp) (i : Nat) : List Flip :=
+  let p := a ^^^ (1 <<< i)
+  (if p = 0 then [mkFlip a src R ctx p] else [])
+  ++ (if accessible look op p then [mkFlip a src R ctx p] else [])
+
+/-- `bitflip::try_bit_flips` -/
+def tryBitFlips (a : Nat) (src : Option String) (R : BitRange) (ctx : Option Ctx)
+    (look : Nat → Option Perm) (op : MemOp) : List Flip :=
+  if accessible look op a then []
+  else R.bits.flatMap (candidatesAt a src R ctx look op)
+
+/-! ## `check_for_bitflips` -/
+
+/-- `AdjustedAddress` -/
+inductive Adjusted where
+  | nonCanonical (v : Nat)
+  | nullPointerWithOffset (off : Nat)
+  deriving DecidableEq, Repr
+
+/-- `BTreeSet<&'static str>` iteration order: sorted by `str`'s `Ord`, no duplicates -/
+def insertSorted (s : String) : List String → List String
+  | [] => [s]
+  | t :: rest => if s < t then s :: t :: rest else if s == t then t :: rest else t :: insertSorted s rest
+
+def btreeSet (xs : List String) : List String := xs.foldl (fun acc s => insertSorted s acc) []
+
+structure Input where
+  cpu : Cpu
+  reason : Reason
+  /-- `info.address` -/
+  address : Nat
+  /-- `info.adjusted_address` -/
+  adjusted : Option Adjusted
+  /-- `exception_details.context` -/
+  ctx : Option Ctx
+  /-- `op_analysis.registers` (any order, duplicates allowed; iterated as a `BTreeSet`) -/
+  iregs : List String
+  deriving Repr
+
+/-- the `bit_flip_address` match (processor.rs:737-751) -/
+def selectAddress (inp : Input) : Option (Nat × BitRange) :=
+  match inp.adjusted with
+  | some (.nonCanonical v) => some (v, .amd64NonCanonical)
+  | some (.nullPointerWithOffset _) => none
+  | none => some (inp.address, if inp.cpu ≠ .amd64 then .all else .amd64Canonical)
+
+/-- the register pass (processor.rs:765-782) -/
+def registerPass (c : Ctx) (iregs : List String) (R : BitRange) (look : Nat → Option Perm)
+    (op : MemOp) : List Flip :=
+  (btreeSet iregs).flatMap fun reg =>
+    match c.get reg with
+    | none => []
+    | some v => tryBitFlips v (some reg) R (some c) look op
+
+/-- `MinidumpInfo::check_for_bitflips`: the resulting `possible_bit_flips`. -/
+def checkBitflips (inp : Input) (look : Nat → Option Perm) : List Flip :=
+  if inp.cpu.pointerWidth ≠ .b64 then []
+  else if inp.cpu = .arm64 then []
+  else
+    match selectAddress inp with
+    | none => []
+    | some (a, R) =>
+      let op := MemOp.fromReason inp.reason
+      tryBitFlips a none R inp.ctx look op
+      ++ (match inp.ctx with
+          | none => []
+          | some c => registerPass c inp.iregs R look op)
+
+/-- the whole analysis from the raw region list -/
+def analyse (inp : Input) (k : MapKind) (rs : List Region) : Outcome (List Flip) :=
+  match buildTable k rs with
+  | .panic s => .panic s
+  | .ok t => .ok (checkBitflips inp (lookupIn rs t))
+
+/-! ## line protocol
+
+  `bitflip run cpu:<c> reason:<read|write|exec|other> addr:<n> adj:<none|nc=<n>|np=<n>>
+           ctx:<none|<regsize>/<name>=<n>,..> iregs:<-|name,..> map:<info|maps>/<lo>:<b>:<p>,..`
+     p = protection bits (decimal) for `info`, or a subset string of `rwx` (`-` = none) for `maps`
+     -> `flips:<addr>/<src|->/<nc><null><low>.<nearby>.<poison>/<conf·320000>;…` | `PANIC`
+  `bitflip conf <nc> <null> <low> <nearby> <poison>` -> `<conf·320000>`  (exact, else `n/d`)
+-/
+
+/-- the confidence on the grid `k / 320000` (every value of `confidence` lies on it:
+    denominators divide `100^4 · 100·…`, reduced); prints `k`, or the raw fraction if not. -/
+def confGrid (q : Q) : String :=
+  let n := q.num * 320000
+  if q.den ≠ 0 ∧ n % (q.den : Int) = 0 then toString (n / (q.den : Int))
+  else s!"{q.num}/{q.den}"
+
+def b01 (b : Bool) : String := if b then "1" else "0"
+
+def showFlip (f : Flip) : String :=
+  let d := f.details
+  s!"{f.addr}/{f.src.getD "-"}/{b01 d.wasNonCanonical}{b01 d.isNull}{b01 d.wasLow}.{d.nearby}.{b01 d.poison}/{confGrid (confidence d)}"
+
+def parseCpu : String → Option Cpu
+  | "x86" => some .x86 | "amd64" => some .amd64 | "ppc" => some .ppc | "ppc64" => some .ppc64
+  | "sparc" => some .sparc | "arm" => some .arm | "arm64" => some .arm64 | "mips" => some .mips
+  | "mips64" => some .mips64 | "unknown" => some .unknown | _ => none
+
+def parseReason : String → Option Reason
+  | "read" => some .winAvRead | "write" => some .winAvWrite | "exec" => some .winAvExec
+  | "other" => some .other | _ => none
+
+def parseU64 (s : String) : Option Nat :=
+  match s.toNat? with
+  | some n => if n ≤ U64MAX then some n else none
+  | none => none
+
+def parseAdj (s : String) : Option (Option Adjusted) :=
+  if s == "none" then some none
+  else match s.splitOn "=" with
+    | ["nc", v] => (parseU64 v).map fun n => some (.nonCanonical n)
+    | ["np", v] => (parseU64 v).map fun n => some (.nullPointerWithOffset n)
+    | _ => none
+
+def parseCtx (s : String) : Option (Option Ctx) :=
+  if s == "none" then some none
+  else match s.splitOn "/" with
+    | [sz, regs] =>
+      match sz.toNat? with
+      | none => none
+      | some sz =>
+        let ps := Proto.pieces regs ","
+        let parsed := ps.filterMap fun p =>
+          match p.splitOn "=" with
+          | [n, v] => (parseU64 v).map fun v => (n, v)
+          | _ => none
+        if parsed.length ≠ ps.length then none else some (some ⟨sz, parsed⟩)
+    | _ => none
+
+def parsePermStr (s : String) : Option Perm :=
+  if s == "-" then some ⟨false, false, false⟩
+  else if s.toList.all (fun c => c == 'r' || c == 'w' || c == 'x') then
+    some ⟨s.toList.contains 'r', s.toList.contains 'w', s.toList.contains 'x'⟩
+  else none
+
+def parseMap (s : String) : Option (MapKind × List Region) :=
+  match s.splitOn "/" with
+  | [k, body] =>
+    let kind : Option MapKind := if k == "info" then some .info else if k == "maps" then some .maps else none
+    match kind with
+    | none => none
+    | some kind =>
+      let ps := Proto.pieces body ","
+      let parsed := ps.filterMap fun p =>
+        match p.splitOn ":" with
+        | [lo, b, perm] =>
+          match parseU64 lo, parseU64 b with
+          | some lo, some b =>
+            (match kind with
+             | .info => (perm.toNat?).map protPerm
+             | .maps => parsePermStr perm).map fun pm => (⟨lo, b, pm⟩ : Region)
+          | _, _ => none
+        | _ => none
+      if parsed.length ≠ ps.length then none else some (kind, parsed)
+  | _ => none
+
+def field (pre : String) (s : String) : Option String :=
+  if s.startsWith pre then some (s.drop pre.length).toString else none
+
+def handleRun (args : List String) : String :=
+  match args with
+  | [cpu, reason, addr, adj, ctx, iregs, map] =>
+    match (field "cpu:" cpu).bind parseCpu, (field "reason:" reason).bind parseReason,
+          (field "addr:" addr).bind parseU64, (field "adj:" adj).bind parseAdj,
+          (field "ctx:" ctx).bind parseCtx, field "iregs:" iregs, (field "map:" map).bind parseMap with
+    | some cpu, some reason, some addr, some adj, some ctx, some iregs, some (kind, rs) =>
+      let inp : Input := { cpu, reason, address := addr, adjusted := adj, ctx,
+                           iregs := if iregs == "-" then [] else Proto.pieces iregs "," }
+      match analyse inp kind rs with
+      | .panic _ => "PANIC"
+      | .ok fs => "flips:" ++ String.join (fs.map fun f => showFlip f ++ ";")
+    | _, _, _, _, _, _, _ => "bad-op"
+  | _ => "bad-op"
+
+def parseBool : String → Option Bool
+  | "0" => some false | "1" => some true | _ => none
+
+def handleConf (args : List String) : String :=
+  match args with
+  | [nc, nul, low, near, poi] =>
+    match parseBool nc, parseBool nul, parseBool low, near.toNat?, parseBool poi with
+    | some nc, some nul, some low, some near, some poi =>
+      if near > U32MAX then "bad-op" else
+      confGrid (confidence ⟨nc, nul, low, near, poi⟩)
+    | _, _, _, _, _ => "bad-op"
+  | _ => "bad-op"
 
 /-- line-protocol entry point of this model (engine(s): bitflip) -/
-def handle (_engine : String) (_args : List String) : String := "bad-op"
+def handle (_engine : String) (args : List String) : String :=
+  match args with
+  | "run" :: rest => handleRun rest
+  | "conf" :: rest => handleConf rest
+  | _ => "bad-op"
 
 end MdModel.BitFlip
